@@ -11,5 +11,6 @@ func genExtra(repo string) map[string]string {
 		"Gen_vars.v":       genVars(repo),
 		"Gen_blamka.v":     genBlamka(repo),
 		"Gen_index.v":      genIndex(repo),
+		"Gen_sched.v":      genSched(repo),
 	}
 }
